@@ -5,6 +5,9 @@ import hashlib
 from .common import STORE_ALGOS
 
 
+UNKNOWN = "\0unexplained"
+
+
 class Layout:
     def __init__(self, depth=3, width=2, algo="SHA-256"):
         self.depth = int(depth)
@@ -119,7 +122,7 @@ def abstract(tree, layout, pids=(), formats=()):
                 a.objects[cid] = c
         elif top == "refs" and len(parts) > 2 and parts[1] == "pids":
             t = c.decode("utf-8", "replace")
-            a.pid_refs[pid_at.get(r, ("?", r))] = t
+            a.pid_refs[pid_at.get(r, (UNKNOWN, r))] = t
         elif top == "refs" and len(parts) > 2 and parts[1] == "cids":
             cid = "".join(parts[2:])
             if layout.cid_ref_path(cid) != r:
@@ -127,7 +130,7 @@ def abstract(tree, layout, pids=(), formats=()):
             else:
                 a.cid_refs[cid] = c.decode("utf-8", "replace")
         elif top == "metadata":
-            a.metadata[meta_at.get(r, ("?", r))] = c
+            a.metadata[meta_at.get(r, (UNKNOWN, r))] = c
         else:
             a.residue.append(("alien", r))
     a.residue.sort()
